@@ -29,6 +29,14 @@ def available():
     return r.returncode == 0
 
 
+def hyp_campaign(prop, target_sub, instrument, runs_quick=1500, runs_thorough=150000, max_len=4096):
+    """Coverage-guided campaign over another sub-check's own Hypothesis strategy: libFuzzer mutates the byte
+    buffer that Hypothesis decodes into a case (`test.hypothesis.fuzz_one_input`), so no bespoke decoder is
+    needed and generator, oracle and replay format are exactly those of `target_sub`."""
+    return campaign(prop, target_sub, "@hypothesis", instrument, runs_quick=runs_quick,
+                    runs_thorough=runs_thorough, max_len=max_len)
+
+
 def campaign(prop, subname, decode_name, instrument, runs_quick=20000, runs_thorough=400000, max_len=48):
     def custom(tier, seed, shard, nshards, stats):
         if not available():
@@ -42,9 +50,9 @@ def campaign(prop, subname, decode_name, instrument, runs_quick=20000, runs_thor
             os.mkdir(corpus)
             env = dict(os.environ, PYTHONPATH=os.pathsep.join([DEPS, REPO, VERIF]), PYTHONHASHSEED="0",
                        PYTHONDONTWRITEBYTECODE="1")
-            cmd = [sys.executable, "-m", "vp.fuzz", "child", prop, subname, decode_name, ",".join(instrument), out,
+            cmd = [sys.executable, "-m", "vp.fuzz", "child", prop, subname, decode_name + ":" + tier, ",".join(instrument), out,
                    "-runs=%d" % runs, "-seed=%d" % (seed % (2 ** 31 - 1) + 1), "-max_len=%d" % max_len,
-                   "-print_final_stats=1", "-artifact_prefix=%s/" % work, corpus]
+                   "-print_final_stats=1", "-len_control=0", "-artifact_prefix=%s/" % work, corpus]
             p = subprocess.run(cmd, env=env, cwd=VERIF, stdout=subprocess.PIPE, stderr=subprocess.STDOUT, text=True)
             text = p.stdout
             res = {}
@@ -54,8 +62,10 @@ def campaign(prop, subname, decode_name, instrument, runs_quick=20000, runs_thor
             m = re.search(r"stat::number_of_executed_units:\s*(\d+)", text)
             execs = int(m.group(1)) if m else res.get("execs", 0)
             cov = re.findall(r"cov: (\d+) ft: (\d+) corp: (\d+)", text)
-            stats.evaluations += execs
+            # an execution whose bytes do not decode into a complete case is not an evaluation of the property
+            stats.evaluations += min(execs, res.get("judged", execs))
             stats.extra["fuzz_execs"] = execs
+            stats.extra["fuzz_cases_judged"] = res.get("judged", execs)
             if cov:
                 stats.extra["fuzz_edges_covered"] = int(cov[-1][0])
                 stats.extra["fuzz_corpus_units"] = int(cov[-1][2])
@@ -89,11 +99,12 @@ def child_main(argv):
     from vp import core
     mod = core._load_module(prop)
     sub = core._find_sub(mod, subname)
-    decode = getattr(mod, decode_name)
-    state = {"execs": 0, "nontrivial": set(), "samples": []}
+    decode_name, _, tier = decode_name.partition(":")
+    decode = getattr(mod, decode_name) if decode_name != "@hypothesis" else None
+    state = {"execs": 0, "judged": 0, "nontrivial": set(), "samples": []}
 
     def flush(extra=None):
-        doc = {"execs": state["execs"], "nontrivial": sorted(state["nontrivial"])[:200000], "samples": state["samples"]}
+        doc = {"execs": state["execs"], "judged": state["judged"], "nontrivial": sorted(state["nontrivial"])[:200000], "samples": state["samples"]}
         doc.update(extra or {})
         with open(out, "w") as f:
             json.dump(doc, f, default=repr)
@@ -105,6 +116,10 @@ def child_main(argv):
         case = decode(atheris.FuzzedDataProvider(data))
         if case is None:
             return
+        judge(case)
+
+    def judge(case):
+        state["judged"] += 1
         r = core.run_check(sub, case)
         if r[0] == "ok":
             info = r[1]
@@ -122,7 +137,23 @@ def child_main(argv):
         sys.stdout.flush()
         os._exit(0)
 
-    import atexit
+    if decode is None:
+        # drive the sub-check's own strategy: Hypothesis turns libFuzzer's bytes into a case
+        from hypothesis import given, settings, HealthCheck
+
+        def body(case):
+            judge(case)
+
+        test = settings(database=None, deadline=None, suppress_health_check=list(HealthCheck))(
+            given(sub.strategy(tier or "quick"))(body))
+        feed = test.hypothesis.fuzz_one_input
+
+        def one(data):  # noqa: F811
+            state["execs"] += 1
+            if state["execs"] % 2000 == 0:
+                flush()
+            feed(data)
+
     atheris.Setup([sys.argv[0]] + fuzz_args, one)
     try:
         atheris.Fuzz()
